@@ -812,10 +812,37 @@ func (s *fstate) call(c *ssa.CallCommon, site ssa.Instruction, result ssa.Value)
 		}
 
 		s.a.notes["call of a function value without candidate in the module: "+c.Value.Type().String()] = struct{}{}
+
+		name := "func value " + c.Value.Type().String()
+		s.effectOn(cl, "ext", name, site.Pos())
+
+		for i := range args {
+			if i < len(argVs) && pointerLike(argVs[i].Type()) {
+				s.effectOn(args[i], "ext", name, site.Pos())
+			}
+		}
 	}
 }
 
-var syncTypes = map[string]bool{"sync.Mutex": true, "sync.RWMutex": true, "sync.Once": true, "sync.WaitGroup": true}
+// calls into package sync and sync/atomic: a read of an atomic and the lock operations are reported as "sync" (the
+// Lean side admits read locks only), everything else of sync/atomic is a write
+func externalKind(name string) string {
+	bare := strings.NewReplacer("(", "", ")", "", "*", "").Replace(name)
+
+	switch {
+	case strings.HasPrefix(bare, "sync/atomic."):
+		method := bare[strings.LastIndex(bare, ".")+1:]
+		if strings.HasPrefix(method, "Load") {
+			return "sync"
+		}
+
+		return "store"
+	case strings.HasPrefix(bare, "sync."):
+		return "sync"
+	default:
+		return "ext"
+	}
+}
 
 func (s *fstate) external(name string, args []rootSet, argVs []ssa.Value, hasRecv bool, site ssa.Instruction,
 	result ssa.Value, union rootSet,
@@ -828,20 +855,17 @@ func (s *fstate) external(name string, args []rootSet, argVs []ssa.Value, hasRec
 		}
 	}
 
-	if hasRecv && len(args) > 0 && pointerLike(argVs[0].Type()) {
-		kind := "ext"
+	// whatever shared memory a function outside the module is handed - as receiver or as argument, directly or
+	// inside a local object - it may write: every such call is reported and has to be on the reviewed list
+	// (Footprint.trustedExt / trustedSync on the Lean side)
+	_ = hasRecv
 
-		for t := range syncTypes {
-			if strings.HasPrefix(name, "(*"+t+").") {
-				kind = "sync"
-			}
+	for i := range args {
+		if i >= len(argVs) || !pointerLike(argVs[i].Type()) {
+			continue
 		}
 
-		if strings.HasPrefix(name, "sync/atomic.") || strings.HasPrefix(name, "(*sync/atomic.") {
-			kind = "sync"
-		}
-
-		s.effectOn(args[0], kind, name, site.Pos())
+		s.effectOn(args[i], externalKind(name), name, site.Pos())
 	}
 
 	if result != nil {
@@ -1159,6 +1183,7 @@ type entry struct {
 	Ext     []effect `json:"ext"`
 	Sync    []effect `json:"sync"`
 	Unknown []effect `json:"unknown"`
+	Leaves  []leaf   `json:"leaves"`
 	fn      *ssa.Function
 }
 
@@ -1170,6 +1195,45 @@ var familiesList = []family{
 	{"internal/rules/mechanisms/contextualizers", "Contextualizer", "contextualizer"},
 	{"internal/rules/mechanisms/finalizers", "Finalizer", "finalizer"},
 	{"internal/rules/mechanisms/errorhandlers", "ErrorHandler", "error_handler"},
+}
+
+// leaf fields of a struct: fields of embedded by-value structs declared in the module are followed; a leaf is a
+// reference if it is a pointer, map, slice, interface, func or chan
+type leaf struct {
+	Name string `json:"name"`
+	Ref  bool   `json:"ref"`
+}
+
+func leavesOf(t types.Type, prefix string, depth int) []leaf {
+	st, ok := t.Underlying().(*types.Struct)
+	if !ok || depth > 6 {
+		return nil
+	}
+
+	var res []leaf
+
+	for i := 0; i < st.NumFields(); i++ {
+		f := st.Field(i)
+		name := prefix + f.Name()
+
+		if _, isStruct := f.Type().Underlying().(*types.Struct); isStruct {
+			if n, ok := f.Type().(*types.Named); ok && n.Obj().Pkg() != nil && inModule(n.Obj().Pkg().Path()+"/") ||
+				func() bool { _, anon := f.Type().(*types.Struct); return anon }() {
+				res = append(res, leavesOf(f.Type(), name+".", depth+1)...)
+
+				continue
+			}
+		}
+
+		switch f.Type().Underlying().(type) {
+		case *types.Pointer, *types.Map, *types.Slice, *types.Interface, *types.Signature, *types.Chan:
+			res = append(res, leaf{name, true})
+		default:
+			res = append(res, leaf{name, false})
+		}
+	}
+
+	return res
 }
 
 func fail(format string, args ...any) {
@@ -1344,7 +1408,9 @@ func main() {
 					fail("method %s of %s has no body", m.Name(), name)
 				}
 
-				entries = append(entries, &entry{Kind: fam.kind, Type: name, Method: m.Name(), Fields: fields, fn: fn})
+				entries = append(entries, &entry{
+					Kind: fam.kind, Type: name, Method: m.Name(), Fields: fields, fn: fn, Leaves: leavesOf(tn.Type(), "", 0),
+				})
 			}
 		}
 
@@ -1386,6 +1452,37 @@ func main() {
 				entries = append(entries, &entry{Kind: "factory", Type: tname, Method: ms.At(i).Obj().Name(), Fields: fields, fn: fn})
 			}
 		}
+	}
+
+	// reload callbacks (watcher.ChangeListener) of objects mechanisms refer to: the only writers of loaded state that
+	// are meant to exist; reported as kind "reload" (not subject to the write-freeness obligation, but to "writes
+	// happen under the write lock")
+	for _, n := range a.named {
+		path := n.Obj().Pkg().Path()
+		if !strings.HasPrefix(path, module+"internal/rules/") {
+			continue
+		}
+
+		recv := types.NewPointer(n)
+		sel := prog.MethodSets.MethodSet(recv).Lookup(n.Obj().Pkg(), "OnChanged")
+
+		if sel == nil {
+			continue
+		}
+
+		fn := prog.MethodValue(sel)
+		if fn == nil || len(fn.Blocks) == 0 {
+			fail("reload callback of %s has no body", n.Obj().Name())
+		}
+
+		var fields []string
+		if st, ok := n.Underlying().(*types.Struct); ok {
+			for i := 0; i < st.NumFields(); i++ {
+				fields = append(fields, st.Field(i).Name())
+			}
+		}
+
+		entries = append(entries, &entry{Kind: "reload", Type: n.Obj().Name(), Method: "OnChanged", Fields: fields, fn: fn})
 	}
 
 	for _, e := range entries {
@@ -1449,6 +1546,8 @@ func main() {
 				e.Sync = append(e.Sync, ef)
 			case ef.Kind == "ext" && (recv || glob):
 				e.Ext = append(e.Ext, ef)
+			case (ef.Kind == "ext" || ef.Kind == "sync") && ef.Root == unknown:
+				e.Unknown = append(e.Unknown, ef)
 			case ef.Kind == "ext" || ef.Kind == "sync":
 			case recv:
 				e.Writes = append(e.Writes, ef)
@@ -1526,9 +1625,14 @@ func main() {
 	sb.WriteString("def footprints : List Row := [\n")
 
 	for i, e := range entries {
-		fmt.Fprintf(&sb, "  { kind := %s, typ := %s, method := %s,\n    fields := %s,\n    reads := %s,\n    writes := %s,\n    globals := %s,\n    ext := %s,\n    unknown := %s }",
+		if e.Kind == "reload" {
+			// only what the obligation on reload callbacks is about: which fields are written, which locks are taken
+			e.Globals, e.Ext, e.Unknown = nil, nil, nil
+		}
+
+		fmt.Fprintf(&sb, "  { kind := %s, typ := %s, method := %s,\n    fields := %s,\n    reads := %s,\n    writes := %s,\n    globals := %s,\n    ext := %s,\n    sync := %s,\n    unknown := %s }",
 			leanStr(e.Kind), leanStr(e.Type), leanStr(e.Method), leanStrs(e.Fields), leanStrs(e.Reads),
-			pairs(e.Writes), pairs(e.Globals), pairs(e.Ext), pairs(e.Unknown))
+			pairs(e.Writes), pairs(e.Globals), pairs(e.Ext), pairs(e.Sync), pairs(e.Unknown))
 
 		if i+1 < len(entries) {
 			sb.WriteString(",")
@@ -1537,6 +1641,30 @@ func main() {
 		sb.WriteString("\n")
 	}
 
+	sb.WriteString("]\n\n/-- leaf fields of every mechanism struct (fields of embedded by-value structs of the module followed) with\n")
+	sb.WriteString("\"is a reference\" (pointer / map / slice / interface / func / chan) -/\n")
+	sb.WriteString("def structLeaves : List (String × List (String × Bool)) := [\n")
+
+	var seenT []string
+
+	for _, e := range entries {
+		if e.Leaves == nil || len(seenT) > 0 && seenT[len(seenT)-1] == e.Type {
+			continue
+		}
+
+		seenT = append(seenT, e.Type)
+
+		var ls []string
+		for _, l := range e.Leaves {
+			ls = append(ls, fmt.Sprintf("(%s, %t)", leanStr(l.Name), l.Ref))
+		}
+
+		fmt.Fprintf(&sb, "  (%s, [%s]),\n", leanStr(e.Type), strings.Join(ls, ", "))
+	}
+
+	out := strings.TrimSuffix(sb.String(), ",\n") + "\n"
+	sb.Reset()
+	sb.WriteString(out)
 	sb.WriteString("]\n\nend Heimdall.Gen\n")
 	fmt.Print(sb.String())
 }
